@@ -144,6 +144,22 @@ EXTRA = {
  'C13': 'All commands (FR.Props.C13s): request_frame (every command except SWAPDB/MOVE/FLUSHALL/EXEC/EVAL leaves every other database identical), exact effect of SWAPDB / MOVE / FLUSHALL / FLUSHDB, exec_frame, request_noninterference and history_independent_of_other_dbs, wake/timeout frames, tightness witnesses for each excluded command. ',
  'C15': 'Commands at system level (FR.Props.C15s): scan_iteration (following the cursors of SCAN through processCommand returns the sorted live keys filtered by MATCH and TYPE once each in scanCalls requests, database only purged), sscan/hscan/zscan_iteration, error and missing-key cases, interleaved_miss (documented) and interleaved_guarantee. ',
 }
+EXTRA4 = {
+ 'C02': 'Lists as a refinement to abstract lists (FR.Props.C02l, 49 theorems): push/pushx/linsert/pop with and without count per version/lset/lrem/ltrim/rpoplpush/lmove in all four directions incl. the same key, '
+        'the first blocking pass = pop of the first list in argument order, history_refinement and system_history. ',
+ 'C03': 'Command specifications through the runner (FR.Props.C03z, 55 theorems): zadd_table (NX/XX/CH/INCR), zincrby/zrem/zscore/zrank, zrange windows, score and lex ranges as filters with LIMIT, zremrangeby* = what the range read returns, '
+        'agreement corollaries at reply level, the -0 rule per version. ',
+ 'C07': 'EXPIRE/PEXPIRE/EXPIREAT refuse deadlines beyond the signed 64-bit millisecond range (F36): expire/pexpire/expireat_rule restated at full strength, *_overflow_refused. ',
+ 'C09': 'The five views at system level (FR.Props.C09v, 51 theorems): dbsize/keys/exists/type/randomkey_spec through processCommand, views_agree (KEYS * = DBSIZE = complete SCAN; k in KEYS iff EXISTS iff TYPE != none iff scanned), '
+        'last_element_removal_deletes (generic + list/set/hash/zset families), noop_write_creates_nothing, read_creates_nothing. ',
+ 'C11': 'History-level conservation (FR.Props.C11c, 24 theorems): for every legal history of the list family incl. MULTI/EXEC, wake-ups and time-outs from empty databases stored + delivered = pushed as multisets '
+        '(conservation, conservation_perm, delivered_or_stored, at_most_once); the exclusion of closing a parked connection is shown necessary. ',
+ 'C18': 'Float grammar (FR.Props.C18f, 70 theorems): float_decode_iff for all byte strings against an independent declarative strtod grammar, value = round-to-nearest-even of the denoted rational (half-ulp, tie-even, monotone, exact integers), '
+        'the four converter flags as iffs, incrbyfloat/hincrbyfloat_never_stores_nonfinite, zadd_zscore_roundtrip_partial under the per-double hypothesis CodecAt. ',
+}
+for _k, _v in EXTRA4.items():
+    EXTRA[_k] = EXTRA.get(_k, '') + _v
+
 NOTE_FIX = {
  'C04': 'KF-1 is the only known way to kill a connection parser; the generator-based Python parser is tied by chunked sends. ',
 }
